@@ -727,3 +727,132 @@ func (r *Rig) Decoy(kind string, wait time.Duration) (closedByServer bool, err e
 
 // Progress returns a counter that moves whenever any session verifies bytes.
 func (r *Rig) Progress() int64 { return atomic.LoadInt64(&r.progress) }
+
+// Drive runs one session over a stream obtained elsewhere (the real client library in the
+// whole-system tier): the same byte-exact oracle on both ends, the same stall supervision.
+// extra() is added to the progress measure (e.g. number of proxies started) so that the
+// stall clock restarts when the environment changes.
+func (r *Rig) Drive(s *Session, stream io.ReadWriteCloser, budget time.Duration, extra func() int64) *Result {
+	res := &Result{Label: s.Label}
+	st := &sessState{spec: s, done: make(chan struct{})}
+	r.mu.Lock()
+	r.sessions[s.Label] = st
+	r.mu.Unlock()
+	defer func() {
+		r.mu.Lock()
+		delete(r.sessions, s.Label)
+		res.Remote = append([]string{}, st.remote...)
+		r.mu.Unlock()
+	}()
+	var upSent, downGot int64
+	var clientErr atomic.Value
+	var wg sync.WaitGroup
+	wg.Add(2)
+	go func() {
+		defer wg.Done()
+		var lb [8]byte
+		binary.BigEndian.PutUint64(lb[:], s.Label)
+		if _, err := stream.Write(lb[:]); err != nil {
+			return
+		}
+		up := Stream{s.Label ^ 0xA5A5A5A5}
+		buf := make([]byte, 64*1024)
+		var off int64
+		k := 0
+		for off < s.UpSize {
+			n := int64(len(buf))
+			if len(s.UpChunk) > 0 {
+				if m := int64(s.UpChunk[k%len(s.UpChunk)]); m < n && m > 0 {
+					n = m
+				}
+				k++
+			}
+			if off+n > s.UpSize {
+				n = s.UpSize - off
+			}
+			up.Fill(buf[:n], off)
+			w, err := stream.Write(buf[:n])
+			off += int64(w)
+			atomic.StoreInt64(&upSent, off)
+			if err != nil {
+				return
+			}
+		}
+	}()
+	go func() {
+		defer wg.Done()
+		down := Stream{s.Label ^ 0x5A5A5A5A}
+		buf := make([]byte, 32*1024)
+		for atomic.LoadInt64(&downGot) < s.DownSize {
+			n, err := stream.Read(buf)
+			if n > 0 {
+				off := atomic.LoadInt64(&downGot)
+				if off+int64(n) > s.DownSize {
+					clientErr.Store(fmt.Sprintf("client side of session %016x read %d bytes beyond the %d the bridge wrote", s.Label, off+int64(n)-s.DownSize, s.DownSize))
+					return
+				}
+				if i := down.Verify(buf[:n], off); i >= 0 {
+					clientErr.Store(fmt.Sprintf("client side of session %016x: byte at downstream offset %d is %#02x, the bridge wrote %#02x (missing, duplicated, reordered or foreign bytes)", s.Label, off+int64(i), buf[i], down.At(off+int64(i))))
+					return
+				}
+				atomic.AddInt64(&downGot, int64(n))
+			}
+			if err != nil {
+				return
+			}
+		}
+	}()
+	lastProgress := time.Now()
+	lastSeen := int64(-1)
+	for {
+		if e := st.err.Load(); e != nil {
+			res.Err = e.(string)
+			break
+		}
+		if e := clientErr.Load(); e != nil {
+			res.Err = e.(string)
+			break
+		}
+		if atomic.LoadInt64(&st.upGot) == s.UpSize && atomic.LoadInt64(&downGot) == s.DownSize && atomic.LoadInt32(&st.accepted) > 0 {
+			break
+		}
+		cur := atomic.LoadInt64(&st.upGot) + atomic.LoadInt64(&downGot)
+		if extra != nil {
+			cur += extra() << 40
+		}
+		if cur != lastSeen {
+			lastSeen = cur
+			lastProgress = time.Now()
+		} else if time.Since(lastProgress) > budget {
+			res.Stalled = true
+			break
+		}
+		time.Sleep(5 * time.Millisecond)
+	}
+	close(st.done)
+	res.UpGot, res.DownGot = atomic.LoadInt64(&st.upGot), atomic.LoadInt64(&downGot)
+	res.UpDone, res.DownDone = res.UpGot == s.UpSize, res.DownGot == s.DownSize
+	res.Accepted = int(atomic.LoadInt32(&st.accepted))
+	if e := st.err.Load(); e != nil && res.Err == "" {
+		res.Err = e.(string)
+	}
+	stream.Close()
+	done := make(chan struct{})
+	go func() { wg.Wait(); close(done) }()
+	select {
+	case <-done:
+	case <-time.After(5 * time.Second):
+	}
+	return res
+}
+
+// Unacked reports for the whole-system tier whether data is in flight for label (written at
+// one end, not yet verified at the other) - used to classify faults.
+func (r *Rig) UpGot(label uint64) int64 {
+	r.mu.Lock()
+	defer r.mu.Unlock()
+	if st := r.sessions[label]; st != nil {
+		return atomic.LoadInt64(&st.upGot)
+	}
+	return -1
+}
